@@ -334,7 +334,7 @@ def scc_reuse_stream(ctx, res):
     import random
     import sccobs as O
     rng = random.Random(ctx.rng.getrandbits(64))
-    n = ctx.n(60, 500)
+    n = ctx.n(60, 250)
     hs = [gen_scc_docs(rng) for _ in range(n)]
     dist = res["distribution"]
     full = list(range(12))
